@@ -935,6 +935,12 @@ where
                 continue;
             }
 
+            // Refresh pool information before the message is interpreted: the custom protocol
+            // commands, the query parser and the plugins below must see the pool's current
+            // settings, not the ones from before the last configuration reload.
+            pool = self.get_pool().await?;
+            query_router.update_pool_settings(&pool.settings);
+
             // Handle all custom protocol commands, if any.
             if self
                 .handle_custom_protocol(&mut query_router, &message, &pool)
